@@ -122,7 +122,12 @@ def _load_pxi(ctx, names):
     def floorf(x):
         if not core.is_sym(x):
             return float(math.floor(x))
+        memo = ctx.ex.path.ghost.setdefault("floor_memo", {})
+        key = z3.simplify(core.rterm(x)).sexpr()
+        if key in memo:  # floorf is a function
+            return core.SInt(memo[key])
         n = z3.Int(core.fresh_name("flr"))
+        memo[key] = n
         r = z3.ToReal(n)
         ctx.ex.assume(z3.And(r <= core.rterm(x), core.rterm(x) < r + 1))
         ctx.ex.path.ghost.setdefault("floor_witness", []).append((core.rterm(x), n))
@@ -215,3 +220,58 @@ def whole_molecules(ctx, case=None):
 
 
 contract("C11", PXI, "whole_molecules", replay="image", covers=["returned"])(whole_molecules)
+
+
+def wrap_mols(ctx, case=None):
+    """wrap_mols on one frame (5 atoms: atoms 0,1 anchor, molecules {2,3} and {4} to be wrapped), positions, centre and a lower-triangular
+    cell symbolic: every atom is shifted by the SAME vector t = (half the cell diagonal) - centre; every other molecule is moved in addition,
+    as a whole, by one integer combination of the cell vectors, chosen so that its centroid ends up inside the cell
+    (0 <= z < c_z, 0 <= y < b_y, 0 <= x < a_x after the successive c, b, a reductions); the cell is not modified"""
+    import numpy as np
+    from mdvc import npobj
+    from mdvc.core import rterm
+
+    mod, dropped = _load_pxi(ctx, ["wrap_mols"])
+    A = 5
+    X = [[ctx.real(f"x{a}_{k}") for k in range(3)] for a in range(A)]
+    B = [[ctx.real(f"b{r}{k}") for k in range(3)] for r in range(3)]
+    C = [ctx.real(f"center{k}") for k in range(3)]
+    ctx.assume(B[0][1] == 0, B[0][2] == 0, B[1][2] == 0, B[0][0] > 0, B[1][1] > 0, B[2][2] > 0)
+    pos = npobj.oarr((A, 3), lambda a, k: X[a][k])
+    box = npobj.oarr((3, 3), lambda r, k: B[r][k])
+    center = npobj.oarr((3,), lambda k: C[k])
+    mols = [[2, 3], [4]]
+    out = ctx.call(mod.globals["wrap_mols"], pos, box, center, np.array([2, 3, 4], dtype=np.int32), np.array([2, 3], dtype=np.int32))
+    ctx.ensure("no-exception", not out.raised)
+    if out.raised:
+        return
+    ctx.cover("returned")
+    raw = ctx.ex.path.ghost.get("floor_witness", [])
+    ctx.ensure("five-distinct-floors-per-molecule", len(raw) == 5 * len(mols))
+    if len(raw) != 5 * len(mols):
+        return
+    V = [[rterm(B[r][k]) for k in range(3)] for r in range(3)]
+    t = [V[k][k] / 2 - rterm(C[k]) for k in range(3)]
+    FLdiv = ctx.lemma("FLdiv:f<=q<f+1,q*B=r,B>0=>0<=r-f*B<B", 4, lambda f, q, Bv, r: z3.Implies(
+        z3.And(f <= q, q < f + 1, q * Bv == r, Bv > 0), z3.And(r - f * Bv >= 0, r - f * Bv < Bv)))
+    for a in (0, 1):
+        for k in range(3):
+            ctx.ensure(f"anchor-atom{a}[{k}]=old+common-shift", rterm(pos[a][k]) == rterm(X[a][k]) + t[k])
+    for mi, atoms in enumerate(mols):
+        f3, f2, f1 = (z3.ToReal(raw[5 * mi + q][1]) for q in (0, 1, 3))
+        q3, q2, q1 = (raw[5 * mi + q][0] for q in (0, 1, 3))
+        cen = [sum(rterm(X[a][k]) + t[k] for a in atoms) / len(atoms) for k in range(3)]  # centroid after the common shift
+        FLdiv(f3, q3, V[2][2], cen[2])
+        FLdiv(f2, q2, V[1][1], cen[1] - f3 * V[2][1])
+        FLdiv(f1, q1, V[0][0], cen[0] - f3 * V[2][0] - f2 * V[1][0])
+        lat = [f3 * V[2][k] + f2 * V[1][k] + f1 * V[0][k] for k in range(3)]
+        for a in atoms:
+            for k in range(3):
+                ctx.ensure(f"molecule{mi}:atom{a}[{k}]=old+common-shift-one-lattice-vector-for-the-whole-molecule", rterm(pos[a][k]) == rterm(X[a][k]) + t[k] - lat[k])
+        newc = [cen[k] - lat[k] for k in range(3)]
+        for k in (2, 1, 0):
+            ctx.ensure(f"molecule{mi}:centroid[{k}]-inside-the-cell(0<=.<diagonal-entry)", z3.And(newc[k] >= 0, newc[k] < V[k][k]))
+    ctx.ensure("cell-not-modified", all(box[r][k] is B[r][k] for r in range(3) for k in range(3)))
+
+
+contract("C11", PXI, "wrap_mols", replay="image", covers=["returned"], max_paths=50)(wrap_mols)
